@@ -42,7 +42,7 @@ def classify(d, x, k, m, away):
 def run(rep, tier, seed):
     R = Prng(seed, 'C17')
     nctx = 60 if tier == 'quick' else 600
-    fams = ['mp', 'mps', 'mpb', 'ef', 'ieee', 'mpfix', 'mpbfix', 'fixed', 'smfixed']
+    fams = ['mp', 'mps', 'mpb', 'ef', 'ieee', 'mpfix', 'mpbfix', 'fixed', 'smfixed']   # (ExpContext has no random bits)
     lines, meta = [], []
     groups = []   # (d, operand, n, k_eff, [(r, impl_line, calls)])
     for ci in range(nctx):
